@@ -11,7 +11,7 @@ use anytls_rs::client::{SessionPool, SessionPoolConfig};
 use anytls_rs::padding::PaddingFactory;
 use anytls_rs::session::Session;
 use serde_json::json;
-use std::sync::atomic::Ordering;
+use std::sync::atomic::{AtomicI64, AtomicU64, Ordering};
 use std::sync::Arc;
 use std::time::Duration;
 
@@ -170,6 +170,141 @@ async fn run_client(log: &Log, seed: u64, round: u64) {
     for s in &seen { let _ = tokio::time::timeout(Duration::from_secs(2), s.close()).await; }
 }
 
+/// A TCP relay in front of the server: counts the TLS connections the client dials and how many
+/// of them are still open (the property's own observable).
+struct Relay { addr: String, dials: Arc<AtomicU64>, live: Arc<AtomicI64> }
+async fn start_relay(upstream: String) -> Relay {
+    let l = tokio::net::TcpListener::bind("127.0.0.1:0").await.expect("relay bind");
+    let addr = l.local_addr().unwrap().to_string();
+    let dials = Arc::new(AtomicU64::new(0));
+    let live = Arc::new(AtomicI64::new(0));
+    let (d2, l2) = (dials.clone(), live.clone());
+    tokio::spawn(async move {
+        loop {
+            let Ok((mut c, _)) = l.accept().await else { break };
+            let _ = c.set_nodelay(true);
+            d2.fetch_add(1, Ordering::SeqCst);
+            l2.fetch_add(1, Ordering::SeqCst);
+            let (up, l3) = (upstream.clone(), l2.clone());
+            tokio::spawn(async move {
+                if let Ok(mut u) = tokio::net::TcpStream::connect(&up).await {
+                    let _ = u.set_nodelay(true);
+                    let _ = tokio::io::copy_bidirectional(&mut c, &mut u).await;
+                }
+                l3.fetch_sub(1, Ordering::SeqCst);
+            });
+        }
+    });
+    Relay { addr, dials, live }
+}
+
+fn closed_port() -> u16 {
+    let l = std::net::TcpListener::bind("127.0.0.1:0").expect("bind");
+    l.local_addr().unwrap().port()
+}
+
+/// Client level with the reaper out of reach (idle timeout 60 s): sequential requests, bursts of
+/// overlapping requests, destinations the server cannot reach, external session deaths. The
+/// dials are counted by a relay in front of the server; the validator owns the idle map and the
+/// health of every session (a session dies only when the harness kills it).
+async fn run_client_seq(log: &Log, seed: u64, round: u64) {
+    let mut r = Rng::new(seed ^ 0x5e9);
+    let mi = r.range(0, 2) as usize;
+    log.reset(json!({"kind": "client-seq", "round": round, "consts": {"CI": 1, "IT": 300, "MI": mi}}));
+    let panics0 = PANICS.load(Ordering::SeqCst);
+    let server = net::start_server(PaddingFactory::default()).await;
+    let relay = start_relay(server.clone()).await;
+    let pool = SessionPoolConfig { check_interval: Duration::from_millis(200), idle_timeout: Duration::from_secs(60), min_idle_sessions: mi };
+    let client = net::make_client(&relay.addr, net::PASSWORD, PaddingFactory::default(), pool);
+    let target = net::start_target("127.0.0.1:0", TargetMode::Echo).await;
+    let good = (target.addr.ip().to_string(), target.addr.port());
+    let mut seen: Vec<Arc<Session>> = Vec::new();
+    let mut peak = 1usize;
+    let mut req = 0u64;
+    let steps = r.range(6, 14);
+    for _ in 0..steps {
+        // now and then a session dies for an external reason (newest first half of the time)
+        if r.chance(1, 4) {
+            let live: Vec<&Arc<Session>> = seen.iter().filter(|s| !s.is_closed()).collect();
+            if !live.is_empty() {
+                let victim = if r.chance(1, 2) { (*live.iter().max_by_key(|s| s.id()).unwrap()).clone() } else { (*r.pick(&live)).clone() };
+                ev!(log, "ckill", s: victim.id());
+                let _ = victim.close().await;
+                tokio::time::sleep(Duration::from_millis(10)).await;
+                if r.chance(1, 2) {
+                    // ... and the next older one too
+                    let live: Vec<&Arc<Session>> = seen.iter().filter(|s| !s.is_closed()).collect();
+                    if let Some(v2) = live.iter().max_by_key(|s| s.id()) { let v2 = (*v2).clone(); ev!(log, "ckill", s: v2.id()); let _ = v2.close().await; tokio::time::sleep(Duration::from_millis(10)).await; }
+                }
+            }
+        }
+        if r.chance(1, 4) {
+            // a burst of overlapping requests (all reachable)
+            let k = r.range(2, 3) as usize;
+            peak = peak.max(k);
+            let mut futs = Vec::new();
+            for _ in 0..k { req += 1; ev!(log, "creq", r: req); futs.push((req, client.create_proxy_stream(good.clone()))); }
+            let mut held = Vec::new();
+            let (ids, fs): (Vec<u64>, Vec<_>) = futs.into_iter().unzip();
+            let outs = futures_join_all(fs).await;
+            for (rq, out) in ids.into_iter().zip(outs) {
+                match out {
+                    Ok((stream, sess)) => {
+                        let new = !seen.iter().any(|s| s.id() == sess.id());
+                        if new { seen.push(sess.clone()); }
+                        ev!(log, "cres", r: rq, ok: true, reach: true, overlap: true, dialled: if new { 1 } else { 0 }, s: sess.id(), sclosed: sess.is_closed());
+                        held.push((rq, stream));
+                    }
+                    Err(_) => ev!(log, "cres", r: rq, ok: false, reach: true, overlap: true, dialled: 0, s: 0, sclosed: false),
+                }
+            }
+            tokio::time::sleep(Duration::from_millis(20)).await;
+            for (rq, stream) in held { drop(stream); ev!(log, "cdone", r: rq); }
+        } else {
+            req += 1;
+            let reach = !r.chance(1, 3);
+            let dest = if reach { good.clone() } else if r.chance(1, 2) { ("127.0.0.1".to_string(), closed_port()) } else { ("no-such-host.invalid".to_string(), 80) };
+            ev!(log, "creq", r: req);
+            let d0 = relay.dials.load(Ordering::SeqCst);
+            let out = client.create_proxy_stream(dest).await;
+            let dialled = relay.dials.load(Ordering::SeqCst) - d0;
+            match out {
+                Ok((stream, sess)) => {
+                    if !seen.iter().any(|s| s.id() == sess.id()) { seen.push(sess.clone()); }
+                    ev!(log, "cres", r: req, ok: true, reach: reach, overlap: false, dialled: dialled, s: sess.id(), sclosed: sess.is_closed());
+                    drop(stream);
+                    ev!(log, "cdone", r: req);
+                }
+                Err(_) => ev!(log, "cres", r: req, ok: false, reach: reach, overlap: false, dialled: dialled, s: 0, sclosed: false),
+            }
+        }
+        tokio::time::sleep(Duration::from_millis(25)).await;
+    }
+    // the number of TLS connections still open, as the relay sees it
+    tokio::time::sleep(Duration::from_millis(300)).await;
+    let open = relay.live.load(Ordering::SeqCst).max(0) as usize;
+    ev!(log, "csessions", open: open, peak: peak, mi: mi);
+    ev!(log, "end", panics: PANICS.load(Ordering::SeqCst) - panics0);
+    client.stop_session_pool_cleanup().await;
+    for s in &seen { let _ = tokio::time::timeout(Duration::from_secs(2), s.close()).await; }
+}
+
+async fn futures_join_all<F: std::future::Future>(fs: Vec<F>) -> Vec<F::Output> {
+    // the requests of a burst run concurrently on the runtime's workers
+    let mut pinned: Vec<std::pin::Pin<Box<F>>> = fs.into_iter().map(Box::pin).collect();
+    let mut outs: Vec<Option<F::Output>> = pinned.iter().map(|_| None).collect();
+    std::future::poll_fn(|cx| {
+        let mut pending = false;
+        for (i, f) in pinned.iter_mut().enumerate() {
+            if outs[i].is_none() {
+                match f.as_mut().poll(cx) { std::task::Poll::Ready(v) => outs[i] = Some(v), std::task::Poll::Pending => pending = true }
+            }
+        }
+        if pending { std::task::Poll::Pending } else { std::task::Poll::Ready(()) }
+    }).await;
+    outs.into_iter().map(|o| o.unwrap()).collect()
+}
+
 pub fn run(args: &Args, log: &Log) -> Result<(), String> {
     let thorough = args.tier == "thorough";
     std::panic::set_hook(Box::new(|_| { PANICS.fetch_add(1, Ordering::SeqCst); }));
@@ -183,7 +318,10 @@ pub fn run(args: &Args, log: &Log) -> Result<(), String> {
     }
     {
         let rt = net::rt();
-        rt.block_on(async { for round in 0..(if thorough { 20 } else { 4 }) { run_client(log, args.seed + round, round).await; } });
+        rt.block_on(async {
+            for round in 0..(if thorough { 20 } else { 4 }) { run_client(log, args.seed + round, round).await; }
+            for round in 0..(if thorough { 300 } else { 30 }) { run_client_seq(log, args.seed.wrapping_mul(31).wrapping_add(round), round).await; }
+        });
         rt.shutdown_timeout(Duration::from_millis(200));
     }
     let _ = std::panic::take_hook();
